@@ -22,14 +22,14 @@ META = dict(
     level_text="Every generated legacy card pair and every synthetic v1/v2 archive is translated by the real converter and the result is validated against the expectation; sampling over PTO, QED, HQ scheme, ModEv, ModSV, inversion, grids, thresholds, nf0 (given / inferred) and over random current cards for the archives.",
     level_note="Trusted base: my statement of the legacy formats. Old runcards: keys as used by benchmarks/ and ekomark (PTO, QED, alphas, alphaqed, Qref, nfref, Qedref, mc/mb/mt, kcThr.., Qmc.., HQ, XIF, ModEv, ModSV, Q0, nf0, PTO_matching; operator: interpolation_xgrid, mugrid|Q2grid|mu2grid, ev_op_*, debug_skip_*). Archives: layout reconstructed from the read-set of eko/io/v1.py, v2.py and metadata.py and from the old-format cards in extras/lh_bench_23/cfg.py (couplings.scale/num_flavs_ref/max_num_flavs, heavy.num_flavs_init/num_flavs_max_pdf/intrinsic_flavors, operator mu0, metadata bases.xgrid, use_fhmv in 0.13). Fields the converters never read (max_num_flavs, num_flavs_max_pdf, intrinsic_flavors, other entries of bases) cannot be checked.",
     assumptions=[
-        "legacy metadata 'bases.xgrid' is a plain list of x values",
+        "legacy metadata 'bases.xgrid' is a plain list of x values (logarithmic grid) or a {grid, log} mapping (the form the converters pass through; used here for linear grids)",
         "em_running of a legacy card is 'Qedref present and equal to Qref' (convention of the converter; checked only for consistency)",
         "0.13/0.14 archives name inventory files exactly as the current code does (operators directory copied verbatim)",
         "fields never read by the converters (max_num_flavs, num_flavs_max_pdf, intrinsic_flavors, bases.*) are not checked",
     ],
     rule="case = one legacy card pair (keyed by PTO, QED, HQ, ModEv, ModSV, nf0 given?, grid kind) or one (archive, data version) pair (keyed by order, matching order, scheme, method, #targets, version); non-trivial: cards - at least one non-default setting among PTO>0, QED>0, MSBAR, ModSV, k!=1, nf0 inferred; archives - at least one operator and a theory with order>(1,0) or MSBAR or non-unit ratios",
     min_nontrivial=60,
-    required_hits=["legacy_cards_converted", "archives_read", "operators_compared"],
+    required_hits=["legacy_cards_converted", "archives_read", "operators_compared", "linear_grid_archives", "log_grid_archives"],
     max_inconclusive_frac=0.05,
 )
 
@@ -284,7 +284,7 @@ def build_current(rng, path):
     th_raw = gen_theory_raw(rng)
     th_raw.setdefault("use_fhmruvv", bool(rng.random() < 0.5))
     op_raw = gen_operator_raw(rng)
-    op_raw["configs"]["interpolation_is_log"] = True
+    # linear grids too: the legacy layouts carry them as bases.xgrid = {grid, log: false}
     if not op_raw["mugrid"] or rng.random() < 0.3:
         op_raw["mugrid"] = [(float(rng.uniform(2.0, 100.0)), int(rng.integers(3, 7))) for _ in range(int(rng.integers(1, 4)))]
     # distinct targets
@@ -385,10 +385,11 @@ def check_archives(ck, n, root):
             continue
         for version in (1, 2):
             dst = root / f"v{version}-{i}.tar"
-            desc = dict(version=version, order=th_raw["order"], matching_order=th_raw.get("matching_order"), scheme=th_raw["heavy"]["masses_scheme"].upper(), method=op_raw["configs"]["evolution_method"], targets=len(op_raw["mugrid"]), nx=len(op_raw["xgrid"]))
+            desc = dict(version=version, order=th_raw["order"], matching_order=th_raw.get("matching_order"), scheme=th_raw["heavy"]["masses_scheme"].upper(), method=op_raw["configs"]["evolution_method"], targets=len(op_raw["mugrid"]), nx=len(op_raw["xgrid"]), is_log=bool(op_raw["configs"]["interpolation_is_log"]))
             _raw, new, notes = to_legacy_archive(src, dst, version, rng)
             desc.update(notes)
-            nontrivial = len(eps0) >= 1 and (tuple(th_raw["order"]) > (1, 0) or desc["scheme"] == "MSBAR" or any(r != 1.0 for r in th_raw["heavy"]["matching_ratios"]))
+            ck.hit("linear_grid_archives" if not desc["is_log"] else "log_grid_archives")
+            nontrivial = len(eps0) >= 1 and (not desc["is_log"] or tuple(th_raw["order"]) > (1, 0) or desc["scheme"] == "MSBAR" or any(r != 1.0 for r in th_raw["heavy"]["matching_ratios"]))
             ck.case(json.dumps(desc, sort_keys=True, default=str), nontrivial=nontrivial, sample=dict(kind="legacy-archive", **desc))
             wit = dict(desc, theory_yaml=new["theory.yaml"], operator_yaml={k: v for k, v in new["operator.yaml"].items() if k != "xgrid"}, metadata_yaml={k: v for k, v in new["metadata.yaml"].items() if k != "bases"}, seed=ck.seed)
             try:
@@ -416,8 +417,11 @@ def check_archives(ck, n, root):
             dop = same(op0c, op1c, "operator")
             if dop:
                 bad.append(("operator", dop))
-            if not (md0[0][0] == md1[0][0] and int(md0[0][1]) == int(md1[0][1]) and np.array_equal(md0[1], md1[1]) and md0[2] == md1[2]):
+            if not (md0[0][0] == md1[0][0] and int(md0[0][1]) == int(md1[0][1]) and np.array_equal(md0[1], md1[1])):
                 bad.append(("metadata", f"origin/xgrid {md0[0]} -> {md1[0]}"))
+            # XGrid.__eq__ ignores the flag: compare it explicitly, against the source and against the card's declaration
+            if md1[2] != md0[2] or md1[2] != bool(op_raw["configs"]["interpolation_is_log"]):
+                bad.append(("metadata.xgrid.log", f"xgrid log flag {md0[2]} (declared is_log={op_raw['configs']['interpolation_is_log']}) -> {md1[2]}"))
             if dv != version:
                 bad.append(("metadata", f"data_version {dv}, expected {version}"))
             if [(float(a), int(b)) for a, b in eps0] != [(float(a), int(b)) for a, b in eps1]:
